@@ -27,6 +27,7 @@ fn budget(t: Tier) -> Budget {
         cases: t.pick(400_000, 8_000_000),
         max_len: 160,
         shards: 16,
+        dual_profile: false,
     }
 }
 
